@@ -72,6 +72,32 @@ def _job(args):
                    f"{type(e).__name__}: {e}\n{traceback.format_exc(limit=8)}").to_json()], time.time() - t0
 
 
+def check_lemmas():
+    """compile the Lean 4 / mathlib proofs of the mathematical lemmas the contracts rely on (lemmas/*.lean): no error, no
+    `sorry`, only the three standard axioms.  Not part of the per-property checks (keeps them fast)."""
+    import glob
+    import shutil
+    import subprocess
+    lean = shutil.which("lean")
+    if not lean:
+        print("CHECKER-ERROR lean not found on PATH")
+        return 3
+    rc = 0
+    for f in sorted(glob.glob(os.path.join(ROOT, "lemmas", "*.lean"))):
+        t0 = time.time()
+        r = subprocess.run([lean, f], capture_output=True, text=True, timeout=1800, cwd=os.path.join(ROOT, "lemmas"))
+        out = r.stdout + r.stderr
+        axioms = [l for l in out.splitlines() if "depends on axioms" in l]
+        bad_ax = [l for l in axioms if "sorryAx" in l or any(a not in ("propext", "Classical.choice", "Quot.sound") for a in
+                                                               l.split("[")[-1].rstrip("]").replace(" ", "").split(",") if a)]
+        ok = r.returncode == 0 and "error" not in out and "sorry" not in out and axioms and not bad_ax
+        print(f"lemmas {'ok  ' if ok else 'FAIL'} {os.path.basename(f)}: {len(axioms)} theorem(s) checked, axioms {'standard' if not bad_ax else bad_ax} ({time.time() - t0:.1f}s)")
+        if not ok:
+            print(out[-1500:])
+            rc = 3
+    return rc
+
+
 def load_known(prop):
     path = os.path.join(ROOT, "known_findings.jsonl")
     known, fixed = [], []
@@ -110,6 +136,8 @@ def main(argv=None):
     if prop == "selftest":
         from . import selftest
         return selftest.main()
+    if prop == "lemmas":
+        return check_lemmas()
     if prop not in PROPS:
         print(f"unknown or not-applicable property {prop}")
         return 3
